@@ -61,6 +61,10 @@ class World:
         from supervisor.process import Subprocess, EventListenerPool
         from supervisor.compat import as_bytes
         world = self
+        # handler may carry a logging mode: 'strict+log' (the listener has a stdout_logfile) or 'strict+strip'
+        # (…and [supervisord] strip_ansi=true): what is logged must not influence the protocol state machine
+        handler, _, logmode = handler.partition('+')
+        self.logmode = logmode
         self.events, self.states, self.sp = events, states, sp
         self.trace = []
         self.recording = True
@@ -79,6 +83,7 @@ class World:
             def __init__(self):
                 DummyOptions.__init__(self)
                 self.identifier = identifier
+                self.strip_ansi = (logmode == 'strip')
                 self.read_data = {}
                 self.cap = None
                 self.broken = False
@@ -145,7 +150,7 @@ class World:
                 # names='shared': the same process names in every pool (two [eventlistener:x] sections may
                 # use the same process_name); the Subprocess objects are of course distinct
                 c = Cfg(o, ('l%d' % j) if names == 'shared' else '%s_l%d' % (name, j), '/bin/cat', autostart=False, autorestart=False,
-                        startsecs=0, exitcodes=(0,))
+                        startsecs=0, exitcodes=(0,), stdout_logfile='/dev/null' if logmode else None)
                 pcs.append(c)
             g = DummyPGroupConfig(self.pool_options, name, pconfigs=pcs)
             g.buffer_size = bufsize
